@@ -43,7 +43,11 @@ Ob(kind, name, idx, vals, sk) == <<kind, name, idx, vals, sk>>
 St0(inp, dev) ==
   [pc |-> 1, env |-> EmptyF, arr |-> EmptyF, fs |-> <<>>, fl |-> EmptyF, gs |-> <<>>, dp |-> 1,
    inp |-> inp, dev |-> dev, oct |-> 0, obs |-> <<>>, calls |-> <<>>, status |-> "run", why |-> "",
-   onerr |-> -1, onbrk |-> -1, steps |-> 0, rdundef |-> "", epc |-> 0]
+   onerr |-> -1, onbrk |-> -1, steps |-> 0, rdundef |-> "", epc |-> 0,
+   \* BASIC09 points this specification leaves open (DESIGN.md 4.1) unless a check fixes them to explore both answers:
+   \* ztp: a FOR whose start is beyond its end -- "either" (unjudged), "top" (body skipped), "bottom" (body runs once)
+   \* cut: a string longer than the declared size -- FALSE (unjudged), TRUE (cut to the size, BASIC09's rule)
+   ztp |-> "either", cut |-> FALSE]
 Stop(st, status, why) == [st EXCEPT !.status = status, !.why = why]
 
 (* ---------------------------- text <-> numbers ---------------------------- *)
@@ -323,16 +327,19 @@ StoreD(st, lv, idxvals, v, sk) ==
        ELSE LET old == ArrGet(s2, lv[2], ix, lv[4]) IN
             [s2 EXCEPT !.arr[lv[2]].cells = Put(@, ix, v),
                        !.obs = IF SameVal(old, v, lv[4]) THEN @ ELSE Append(@, Ob("set", TargetName(lv[2], TRUE), ix, <<v>>, sk))]
+\* the class a variable was declared with (DIM / PARAM with a type), else the implicit one of its name
+DeclClass(st, name, ty) == IF HasKey(st.fl, "type:" \o name) THEN st.fl["type:" \o name] ELSE IF ty = "$" THEN "str" ELSE "num"
+ClassOk(cls, v) == CASE cls = "str" -> v[1] \in {"str", "fmt", "sym"} [] cls = "bool" -> v[1] \in {"bool", "sym"} [] OTHER -> v[1] \in {"num", "sym", "ref"}
 TypeOkB(ty, v) == IF ty = "$" THEN v[1] \in {"str", "fmt", "sym"} ELSE v[1] \in {"num", "sym", "ref"}
 StrSize(st, name) == IF HasKey(st.fl, "size:" \o name) THEN st.fl["size:" \o name] ELSE 32
 \* a string longer than the declared size is cut by BASIC09; the tool documents this limit, so such runs are not judged
-TooLong(st, name, v) == IsStr(v) /\ Len(v[2]) > StrSize(st, name)
-Trunc2(st, name, v) == v
+TooLong(st, name, v) == ~st.cut /\ IsStr(v) /\ Len(v[2]) > StrSize(st, name)
+Trunc2(st, name, v) == IF st.cut /\ IsStr(v) /\ Len(v[2]) > StrSize(st, name) THEN Str(Take(v[2], StrSize(st, name))) ELSE v
 StoreB(st, lv, v0, sk) ==
   IF lv[1] = "var" THEN
      IF lv[2] = "PLAY.OCTO" THEN
         (IF IsInt(v0) THEN [st EXCEPT !.oct = v0[2], !.obs = IF v0[2] = st.oct THEN @ ELSE Append(@, Ob("dev", "OCTAVE", <<>>, <<v0>>, sk))] ELSE Stop(st, "error", "type"))
-     ELSE IF ~TypeOkB(lv[3], v0) THEN Stop(st, "error", "type:assignment")
+     ELSE IF ~ClassOk(DeclClass(st, lv[2], lv[3]), v0) THEN Stop(st, "error", "type:assignment")
      ELSE IF TooLong(st, lv[2], v0) THEN Stop(st, "unjudged", "string-exceeds-declared-size")
      ELSE LET v == Trunc2(st, lv[2], v0)
               old == IF HasKey(st.env, lv[2]) THEN st.env[lv[2]] ELSE UndefOf(lv[2]) IN
@@ -348,7 +355,7 @@ StoreB(st, lv, v0, sk) ==
        ELSE IF ~IdxInts(vals) THEN Stop(st, "unjudged", "non-integer-subscript")
        ELSE IF Len(vals) # Len(st.arr[lv[2]].dims) THEN Stop(st, "error", "subscript-count")
        ELSE IF ~InRange(IdxOf(vals), st.arr[lv[2]].dims) THEN Stop(st, "error", "subscript-range")
-       ELSE IF ~TypeOkB(lv[4], v0) THEN Stop(st, "error", "type:assignment")
+       ELSE IF ~ClassOk(DeclClass(st, lv[2], lv[4]), v0) THEN Stop(st, "error", "type:assignment")
        ELSE IF TooLong(st, lv[2], v0) THEN Stop(st, "unjudged", "string-exceeds-declared-size")
        ELSE LET ix == IdxOf(vals)  v == Trunc2(st, lv[2], v0)
                 old == IF HasKey(st.arr[lv[2]].cells, ix) THEN st.arr[lv[2]].cells[ix] ELSE UndefOf(lv[2]) IN
@@ -491,7 +498,7 @@ Step1(prog, lang, st0) ==
             LET v == EvB(ins.e, st) IN
             IF v[1] = "undef" THEN [Stop(st, "undef", "assignment") EXCEPT !.rdundef = v[2]]
             ELSE IF v[1] = "err" THEN Stop(st, "error", v[2] \o ":assignment")
-            ELSE IF IsBool(v) THEN Stop(st, "error", "type:assignment")
+            ELSE IF IsBool(v) /\ DeclClass(st, ins.e2[2], "") # "bool" THEN Stop(st, "error", "type:assignment")
             ELSE StoreB(nxt, ins.e2, v, "LET")
     [] ins.op = "JF" ->
          IF D THEN
@@ -550,7 +557,10 @@ Step1(prog, lang, st0) ==
             ELSE IF ~IsNum(a) \/ ~IsNum(b) \/ ~IsNum(s) THEN Stop(st, "error", "type:for")
             ELSE LET s1 == StoreB(nxt, N4("var", ins.x, "", ""), a, "FOR") IN
                  IF s1.status # "run" THEN s1
-                 ELSE IF (s[2] >= 0 /\ Lt(b, a)) \/ (s[2] < 0 /\ Lt(a, b)) THEN Stop(s1, "unjudged", "for-zero-trip")
+                 ELSE IF (s[2] >= 0 /\ Lt(b, a)) \/ (s[2] < 0 /\ Lt(a, b)) THEN
+                      (IF st.ztp = "top" THEN [s1 EXCEPT !.pc = ins.n + 1]
+                       ELSE IF st.ztp = "bottom" THEN [s1 EXCEPT !.fl = Put(@, ToString(st.pc), [lim |-> b, stp |-> s])]
+                       ELSE Stop(s1, "unjudged", "for-zero-trip"))
                  ELSE [s1 EXCEPT !.fl = Put(@, ToString(st.pc), [lim |-> b, stp |-> s])]
     [] ins.op = "NEXT" ->
          IF D THEN
@@ -656,7 +666,9 @@ Load(code, st) ==
      ELSE FoldLeft(LAMBDA s2, dc :
             LET s3 == IF dc[3] # <<>> /\ ~HasKey(s2.arr, dc[2])
                       THEN [s2 EXCEPT !.arr = Put(@, dc[2], [dims |-> [k \in 1..Len(dc[3]) |-> dc[3][k] - 1], cells |-> EmptyF])] ELSE s2 IN
-            IF dc[4][1] = "STRING" THEN [s3 EXCEPT !.fl = Put(@, "size:" \o dc[2], dc[4][2])] ELSE s3, s, ins.a), st, code)
+            LET s4 == IF dc[4][1] = "STRING" THEN [s3 EXCEPT !.fl = Put(@, "size:" \o dc[2], dc[4][2])] ELSE s3 IN
+            IF dc[4][1] = "" THEN s4
+            ELSE [s4 EXCEPT !.fl = Put(@, "type:" \o dc[2], IF dc[4][1] = "STRING" THEN "str" ELSE IF dc[4][1] = "BOOLEAN" THEN "bool" ELSE "num")], s, ins.a), st, code)
 
 Run(prog, lang, st, fuel) == FoldLeft(LAMBDA s, i : Step(prog, lang, s), st, [i \in 1..fuel |-> i])
 =============================================================================
